@@ -1,7 +1,7 @@
 (* C10: composition.  H264Payloader output for a sequence of NAL units, fed in order to one
    H264Packet, yields exactly the units that the hold-back rule delivers, each behind the
    receiver's prefix (Annex-B start code or AVC length).  Hypothesis of the partial theorem: a
-   held SPS/PPS pair fits into one STAP-A (otherwise KF-C10-stapa-drop). *)
+   held SPS/PPS pair goes out as one STAP-A when it fits the MTU and as two units otherwise. *)
 From Coq Require Import ZArith List Lia Bool.
 From Coq Require Import ZifyBool.
 From RTP Require Import Base.Bits Base.Res Base.ListX Base.Bytes Base.Own Base.Tactics
@@ -102,86 +102,107 @@ Fixpoint deliver_all (st : h264pay) (ns : list (list Z)) : h264pay * list (list 
   | n :: t => let '(st1, d1) := deliver st n in let '(st2, d2) := deliver_all st1 t in (st2, d1 ++ d2)
   end.
 
-(* parameter sets small enough that any held pair fits one STAP-A *)
-Definition small (mtu : Z) (n : list Z) : Prop := 2 * zlen n + 5 <= mtu /\ zlen n < 65536.
-Definition held_small (mtu : Z) (st : h264pay) : Prop :=
-  (forall s, hp_sps st = Some s -> small mtu s) /\ (forall p, hp_pps st = Some p -> small mtu p).
-Definition param_small (mtu : Z) (n : list Z) : Prop :=
-  (nal_type n = 7 \/ nal_type n = 8) -> small mtu n.
+(* the parameter sets a payloader holds are units it was given: valid ones, on valid input *)
+Definition held_valid (st : h264pay) : Prop :=
+  (forall s, hp_sps st = Some s -> valid_nal s) /\ (forall p, hp_pps st = Some p -> valid_nal p).
+
+Lemma held_valid_fresh d : held_valid (mkH264Pay d None None).
+Proof. split; intros ? [=]. Qed.
 
 Lemma packaging_app avc acc n : packaging avc acc n = acc ++ prefixed avc n.
 Proof. unfold prefixed, packaging. destruct avc; reflexivity. Qed.
 
-Lemma nalu_lossless mtu st n avc : 3 <= mtu -> valid_nal n -> param_small mtu n -> held_small mtu st ->
-  exists fs, h264_nalu mtu st n = Ok (fst (deliver st n), fs) /\ held_small mtu (fst (deliver st n)) /\
+(* unit_roundtrip with the fragments named once *)
+Lemma unit_rt mtu n avc : 3 <= mtu -> valid_nal n ->
+  exists fs, emit_single_or_fua mtu n = Ok fs /\
+    forall stale, exists stale',
+      depack (mkH264Pkt avc stale) (map own_bytes fs) = Ok (mkH264Pkt avc stale', prefixed avc n).
+Proof.
+  intros Hm Hv. destruct (unit_roundtrip mtu n avc [] Hm Hv) as (fs & _ & Hrun & _ & _).
+  exists fs. split; [exact Hrun|]. intros stale.
+  destruct (unit_roundtrip mtu n avc stale Hm Hv) as (fs' & stale' & Hrun' & _ & Hd).
+  rewrite Hrun in Hrun'. injection Hrun' as <-. exists stale'. exact Hd.
+Qed.
+
+Lemma nalu_lossless mtu st n avc : 3 <= mtu <= 65535 -> valid_nal n -> held_valid st ->
+  exists fs, h264_nalu mtu st n = Ok (fst (deliver st n), fs) /\ held_valid (fst (deliver st n)) /\
     forall stale, exists stale',
       depack (mkH264Pkt avc stale) (map own_bytes fs)
       = Ok (mkH264Pkt avc stale', concat (map (prefixed avc) (snd (deliver st n)))).
 Proof.
-  intros Hm Hv Hps [Hhs Hhp]. pose proof Hv as [Hlen Hb].
+  intros Hm Hv [Hhs Hhp]. pose proof Hv as [Hlen Hb].
   destruct n as [|b0 body]; [contradiction|].
   unfold h264_nalu, deliver. cbn [nal_type]. set (n := b0 :: body) in *.
   (* nothing is sent: AUD, filler, or a parameter set that is held back *)
-  assert (Hnone : forall st', held_small mtu st' ->
+  assert (Hnone : forall st', held_valid st' ->
             exists fs, @Ok (h264pay * list bref) (st', []) = Ok (fst (st', @nil (list Z)), fs) /\
-              held_small mtu (fst (st', @nil (list Z))) /\
+              held_valid (fst (st', @nil (list Z))) /\
               forall stale, exists stale', depack (mkH264Pkt avc stale) (map own_bytes fs)
                 = Ok (mkH264Pkt avc stale', concat (map (prefixed avc) (snd (st', @nil (list Z)))))).
   { intros st' Hst'. exists []. split; [reflexivity|]. split; [exact Hst'|]. intros stale. exists stale. reflexivity. }
+  destruct (unit_rt mtu n avc ltac:(lia) Hv) as (fs & Hrun & Hdn).
   (* the unit itself is sent *)
-  assert (Hone : forall st', held_small mtu st' ->
-            exists fs, match emit_single_or_fua mtu n with
+  assert (Hone : forall st', held_valid st' ->
+            exists fs0, match emit_single_or_fua mtu n with
                        | Ok fs0 => Ok (st', [] ++ fs0) | Err e => Err e | Panic => Panic end
-                       = Ok (fst (st', [n]), fs) /\ held_small mtu (fst (st', [n])) /\
-              forall stale, exists stale', depack (mkH264Pkt avc stale) (map own_bytes fs)
+                       = Ok (fst (st', [n]), fs0) /\ held_valid (fst (st', [n])) /\
+              forall stale, exists stale', depack (mkH264Pkt avc stale) (map own_bytes fs0)
                 = Ok (mkH264Pkt avc stale', concat (map (prefixed avc) (snd (st', [n]))))).
-  { intros st' Hst'. destruct (unit_roundtrip mtu n avc [] Hm Hv) as (fs & _ & Hrun & _ & _).
-    rewrite Hrun. exists fs. split; [reflexivity|]. split; [exact Hst'|]. intros stale.
-    destruct (unit_roundtrip mtu n avc stale Hm Hv) as (fs' & stale' & Hrun' & _ & Hd).
-    rewrite Hrun in Hrun'. injection Hrun' as <-. exists stale'. rewrite Hd. cbn [snd map concat]. rewrite app_nil_r. reflexivity. }
+  { intros st' Hst'. rewrite Hrun. exists fs. split; [reflexivity|]. split; [exact Hst'|]. intros stale.
+    destruct (Hdn stale) as (stale' & Hd). exists stale'. rewrite Hd. cbn [snd map concat]. rewrite app_nil_r. reflexivity. }
   destruct ((Z.land b0 31 =? 9) || (Z.land b0 31 =? 12)); [apply Hnone; split; assumption|].
   destruct (Z.land b0 31 =? 7) eqn:E7.
   { destruct (negb (hp_disable_stapa st)); [|apply Hone; split; assumption].
-    apply Hnone. split; cbn [hp_sps hp_pps]; [|exact Hhp].
-    intros s [= <-]. apply Hps. left. unfold n. cbn [nal_type]. lia. }
+    apply Hnone. split; cbn [hp_sps hp_pps]; [|exact Hhp]. intros s [= <-]. exact Hv. }
   destruct (Z.land b0 31 =? 8) eqn:E8.
   { destruct (negb (hp_disable_stapa st)); [|apply Hone; split; assumption].
-    apply Hnone. split; cbn [hp_sps hp_pps]; [exact Hhs|].
-    intros s [= <-]. apply Hps. right. unfold n. cbn [nal_type]. lia. }
+    apply Hnone. split; cbn [hp_sps hp_pps]; [exact Hhs|]. intros s [= <-]. exact Hv. }
   destruct (negb (hp_disable_stapa st)); [|apply Hone; split; assumption].
   destruct (hp_sps st) as [sps|] eqn:Es; [|apply Hone; split; [rewrite Es|]; assumption].
   destruct (hp_pps st) as [pps|] eqn:Ep; [|apply Hone; split; [rewrite Es|rewrite Ep]; assumption].
-  (* STAP-A of the held pair, then the unit *)
-  destruct (Hhs sps eq_refl) as [Hs1 Hs2]. destruct (Hhp pps eq_refl) as [Hp1 Hp2].
-  fold (stap_of sps pps).
-  assert (Hfit : zlen (stap_of sps pps) <= mtu).
-  { unfold stap_of, put16. cbn [app]. rewrite !zlen_cons, zlen_app, !zlen_cons. lia. }
-  replace (zlen (stap_of sps pps) <=? mtu) with true by lia.
-  destruct (unit_roundtrip mtu n avc [] Hm Hv) as (fs & _ & Hrun & _ & _). rewrite Hrun.
-  exists ([Own (stap_of sps pps)] ++ fs). split; [reflexivity|].
-  split; [split; cbn [fst hp_sps hp_pps]; intros ? [=]|].
-  intros stale. destruct (unit_roundtrip mtu n avc stale Hm Hv) as (fs' & stale' & Hrun' & _ & Hd).
-  rewrite Hrun in Hrun'. injection Hrun' as <-. exists stale'.
-  rewrite map_app, depack_app. cbn [map own_bytes depack].
-  rewrite (stap_decodes (mkH264Pkt avc stale) sps pps Hs2 Hp2). cbn [hk_avc]. rewrite Hd.
-  cbn [snd map concat]. rewrite !packaging_app. cbn [app]. rewrite !app_nil_r, <- !app_assoc. reflexivity.
+  pose proof (Hhs sps eq_refl) as Hvs. pose proof (Hhp pps eq_refl) as Hvp.
+  fold (stap_of sps pps). rewrite Hrun.
+  destruct (zlen (stap_of sps pps) <=? mtu) eqn:Efit.
+  - (* STAP-A of the held pair, then the unit *)
+    assert (Hsz : zlen sps < 65536 /\ zlen pps < 65536).
+    { unfold stap_of, put16 in Efit. cbn [app] in Efit. rewrite !zlen_cons, zlen_app, !zlen_cons in Efit.
+      pose proof (zlen_nonneg sps). pose proof (zlen_nonneg pps). lia. }
+    destruct Hsz as [Hs2 Hp2].
+    exists ([Own (stap_of sps pps)] ++ fs). split; [reflexivity|].
+    split; [apply held_valid_fresh|].
+    intros stale. destruct (Hdn stale) as (stale' & Hd). exists stale'.
+    rewrite map_app, depack_app. cbn [map own_bytes depack].
+    rewrite (stap_decodes (mkH264Pkt avc stale) sps pps Hs2 Hp2). cbn [hk_avc]. rewrite Hd.
+    cbn [snd map concat]. rewrite !packaging_app. cbn [app]. rewrite !app_nil_r, <- !app_assoc. reflexivity.
+  - (* the pair does not fit one STAP-A: SPS, PPS and the unit, each on its own *)
+    destruct (unit_rt mtu sps avc ltac:(lia) Hvs) as (f1 & Hr1 & Hd1).
+    destruct (unit_rt mtu pps avc ltac:(lia) Hvp) as (f2 & Hr2 & Hd2).
+    assert (Hp1 : packetize_nalu mtu sps = Ok f1).
+    { unfold packetize_nalu. destruct sps; [destruct Hvs as [_ []]|exact Hr1]. }
+    assert (Hp2 : packetize_nalu mtu pps = Ok f2).
+    { unfold packetize_nalu. destruct pps; [destruct Hvp as [_ []]|exact Hr2]. }
+    rewrite Hp1, Hp2.
+    exists ((f1 ++ f2) ++ fs). split; [reflexivity|]. split; [apply held_valid_fresh|].
+    intros stale. destruct (Hd1 stale) as (s1 & E1). destruct (Hd2 s1) as (s2 & E2). destruct (Hdn s2) as (s3 & E3).
+    exists s3. rewrite !map_app, !depack_app, E1, E2, E3.
+    cbn [snd map concat]. rewrite app_nil_r, <- !app_assoc. reflexivity.
 Qed.
 
-Theorem nalus_lossless mtu avc : 3 <= mtu -> forall ns st,
-  Forall valid_nal ns -> Forall (param_small mtu) ns -> held_small mtu st ->
+Theorem nalus_lossless mtu avc : 3 <= mtu <= 65535 -> forall ns st,
+  Forall valid_nal ns -> held_valid st ->
   exists fs, h264_nalus mtu st ns = Ok (fst (deliver_all st ns), fs) /\
-    held_small mtu (fst (deliver_all st ns)) /\
+    held_valid (fst (deliver_all st ns)) /\
     forall stale, exists stale',
       depack (mkH264Pkt avc stale) (map own_bytes fs)
       = Ok (mkH264Pkt avc stale', concat (map (prefixed avc) (snd (deliver_all st ns)))).
 Proof.
-  intros Hm. induction ns as [|n t IH]; intros st Hv Hps Hh.
+  intros Hm. induction ns as [|n t IH]; intros st Hv Hh.
   - exists []. split; [reflexivity|]. split; [exact Hh|]. intros stale. exists stale. reflexivity.
-  - apply Forall_cons_iff in Hv as [Hv Hvt]. apply Forall_cons_iff in Hps as [Hp Hpt].
-    destruct (nalu_lossless mtu st n avc Hm Hv Hp Hh) as (fs1 & H1 & Hh1 & Hd1).
+  - apply Forall_cons_iff in Hv as [Hv Hvt].
+    destruct (nalu_lossless mtu st n avc Hm Hv Hh) as (fs1 & H1 & Hh1 & Hd1).
     cbn [h264_nalus deliver_all]. rewrite H1.
     destruct (deliver st n) as [st1 d1] eqn:Ed. cbn [fst snd] in *.
-    destruct (IH st1 Hvt Hpt Hh1) as (fs2 & H2 & Hh2 & Hd2). rewrite H2.
+    destruct (IH st1 Hvt Hh1) as (fs2 & H2 & Hh2 & Hd2). rewrite H2.
     destruct (deliver_all st1 t) as [st2 d2] eqn:Ed2. cbn [fst snd] in *.
     exists (fs1 ++ fs2). split; [reflexivity|]. split; [exact Hh2|].
     intros stale. destruct (Hd1 stale) as (stale1 & Hr1). destruct (Hd2 stale1) as (stale2 & Hr2).
@@ -189,20 +210,20 @@ Proof.
 Qed.
 
 (* From the caller's bytes: an Annex-B stream of valid units (3- or 4-byte start codes) *)
-Theorem access_unit_lossless mtu avc b n t st : 3 <= mtu ->
+Theorem access_unit_lossless mtu avc b n t st : 3 <= mtu <= 65535 ->
   AnnexBSplit.valid_nal n -> Forall (fun x => AnnexBSplit.valid_nal (snd x)) t ->
-  Forall valid_nal (n :: map snd t) -> Forall (param_small mtu) (n :: map snd t) -> held_small mtu st ->
+  Forall valid_nal (n :: map snd t) -> held_valid st ->
   exists fs, h264_payload st mtu (Some (AnnexBSplit.stream ((b, n) :: t)))
              = Ok (fst (deliver_all st (n :: map snd t)), fs) /\
     forall stale, exists stale',
       depack (mkH264Pkt avc stale) (map own_bytes fs)
       = Ok (mkH264Pkt avc stale', concat (map (prefixed avc) (snd (deliver_all st (n :: map snd t))))).
 Proof.
-  intros Hm Hn Ht Hv Hps Hh. unfold h264_payload.
+  intros Hm Hn Ht Hv Hh. unfold h264_payload.
   pose proof (AnnexBSplit.emit_nalus_stream b n t Hn Ht) as Hsplit.
   assert (Hne : exists x l, AnnexBSplit.stream ((b, n) :: t) = x :: l).
   { cbn [AnnexBSplit.stream]. destruct b; cbn [app AnnexBSplit.sc3 AnnexBSplit.sc4]; eauto. }
   destruct Hne as (x & l & Es). rewrite Es. cbv iota beta. rewrite <- Es, Hsplit.
-  destruct (nalus_lossless mtu avc Hm (n :: map snd t) st Hv Hps Hh) as (fs & H1 & _ & Hd).
+  destruct (nalus_lossless mtu avc Hm (n :: map snd t) st Hv Hh) as (fs & H1 & _ & Hd).
   exists fs. split; [exact H1|exact Hd].
 Qed.
